@@ -295,6 +295,11 @@ def split_sub(sub):
     return sub, []
 
 
+class HarnessCrash(RuntimeError):
+    """the harness process was killed by a signal (abort, stack overflow, ...) — the implementation under test
+    brought the process down, which no property allows"""
+
+
 def harness_lines(sub, args, timeout=3000, env=None):
     e = dict(os.environ)
     if env:
@@ -302,6 +307,9 @@ def harness_lines(sub, args, timeout=3000, env=None):
     b, extra = split_sub(sub)
     p = subprocess.run([os.path.join(BINDIR, b)] + args + extra, stdout=subprocess.PIPE, stderr=subprocess.PIPE,
                        timeout=timeout, env=e)
+    if p.returncode < 0 or p.returncode in (134, 139):
+        raise HarnessCrash("harness %s %s was killed (rc %d): %s" %
+                           (sub, " ".join(args), p.returncode, p.stderr.decode(errors="replace")[-1500:]))
     if p.returncode != 0:
         raise RuntimeError("harness %s %s failed (rc %d): %s" %
                            (sub, " ".join(args), p.returncode, p.stderr.decode(errors="replace")[-2000:]))
@@ -378,6 +386,7 @@ def check_property(prop, cfg, tier, seed, replay_file=None):
 
     lines = []
     codes = []
+    crashes = []
     if harness_ok:
         env = cfg.get("env")
         try:
@@ -390,9 +399,12 @@ def check_property(prop, cfg, tier, seed, replay_file=None):
                     for cf in sorted(glob.glob(os.path.join(CORPUS, prop, "*.json"))):
                         if cfg.get("corpus_sub", {}).get(os.path.basename(cf), sub) != sub:
                             continue
-                        for l in harness_lines(sub, ["replay", cf], env=env):
-                            l["corpus"] = os.path.basename(cf)
-                            lines.append(l)
+                        try:
+                            for l in harness_lines(sub, ["replay", cf], env=env):
+                                l["corpus"] = os.path.basename(cf)
+                                lines.append(l)
+                        except HarnessCrash as e:
+                            crashes.append({"file": cf, "what": str(e)})
                     lines += harness_lines(
                         sub, ["gen", "--seed", str(seed), "--tier", "thorough" if thorough else "quick"],
                         env=env)
@@ -442,6 +454,22 @@ def check_property(prop, cfg, tier, seed, replay_file=None):
                        "verdict": first["verdict"], "group": first.get("group")}],
             "violations_in_run": len(viol),
             "more": [{"case": v["case"], "obs": v["obs"]} for v in viol[1:6]],
+            "replay_cmd": "./check %s --replay <this file>" % prop})
+        out_lines.append("VIOLATION property=%s replay=%s" % (prop, path))
+        exit_code = 1
+    elif crashes:
+        # the process died while running a corpus file: that file is the failing input
+        nviol = len(crashes)
+        c0 = crashes[0]
+        try:
+            cases = json.load(open(c0["file"])).get("cases", [])
+        except Exception:  # noqa
+            cases = []
+        path = write_replay(prop, seed, {
+            "property": prop, "kind": "failing-input",
+            "explanation": "the implementation brought the harness process down (signal / abort / stack overflow) "
+                           "while running these cases; no property allows that",
+            "corpus_file": os.path.relpath(c0["file"], ROOT), "what": c0["what"], "cases": cases,
             "replay_cmd": "./check %s --replay <this file>" % prop})
         out_lines.append("VIOLATION property=%s replay=%s" % (prop, path))
         exit_code = 1
